@@ -59,6 +59,8 @@ def lit(c):
         return z3.IntVal(c)
     if isinstance(c, float) and c == int(c):
         return z3.IntVal(int(c))
+    if c < 0:
+        return -z3.Int(f"lit_float_{float(-c)!r}")
     return z3.Int(f"lit_float_{float(c)!r}")
 
 # }}}
